@@ -35,6 +35,12 @@ struct Rec {
     /// `Evaluations` at the start of every outermost pass (first 400), and at the end of the run
     evals_before: Vec<i64>,
     evals_final: i64,
+    /// open executions of a `Loop` component: (loop passes around it, passes it has completed)
+    loop_open: Vec<(usize, u64)>,
+    /// completed executions of a `Loop` component in order of completion (first 400):
+    /// (loop passes around it, passes it made, visible Iterations and Evaluations when it returned)
+    lruns: Vec<String>,
+    n_lruns: u64,
 }
 fn iters_of<P: HProblem>(state: &State<P>) -> i64 {
     state.try_get_value::<mahf::state::common::Iterations>().map(|v| v as i64).unwrap_or(-1)
@@ -75,6 +81,7 @@ impl Visitor for Rec {
                     let depth = self.pass_open.len();
                     if self.pcount.len() <= depth { self.pcount.resize(depth + 1, 0); }
                     self.pcount[depth] += 1;
+                    if let Some(top) = self.loop_open.last_mut() { top.1 += 1; }
                     if self.passes.len() < 400 {
                         self.passes.push(format!("({} {} {} {})", depth, hb, h, sz));
                     }
@@ -83,10 +90,21 @@ impl Visitor for Rec {
             return;
         }
         match phase {
-            Phase::Before => self.open.push((n, index, h, top3(state), iters_of(state))),
+            Phase::Before => {
+                if n == "Loop" { self.loop_open.push((self.pass_open.len(), 0)); }
+                self.open.push((n, index, h, top3(state), iters_of(state)))
+            }
             Phase::After => {
                 if let Some((bn, _bi, hb, b3, ib)) = self.open.pop() {
                     self.n_steps += 1;
+                    if bn == "Loop" {
+                        if let Some((d, p)) = self.loop_open.pop() {
+                            self.n_lruns += 1;
+                            if self.lruns.len() < 400 {
+                                self.lruns.push(format!("({} {} {} {})", d, p, iters_of(state), evals_of(state)));
+                            }
+                        }
+                    }
                     if !["Block", "Loop", "Branch", "Scope"].contains(&bn.as_str()) && ib != iters_of(state) {
                         self.itouch += 1;
                     }
@@ -107,6 +125,34 @@ impl Visitor for Rec {
             self.final_height = Some(h as usize);
             self.final_size = Some(sz as usize);
         }
+    }
+}
+
+impl Rec {
+    /// What one `Configuration::run` was observed to do; clears the per-run part of the record (the step and pass
+    /// logs go on).
+    fn take_run(&mut self) -> Vec<String> {
+        let v = vec![
+            format!("(iters {})", self.iters.map(|i| i.to_string()).unwrap_or("none".into())),
+            format!("(height {})", self.final_height.map(|i| i.to_string()).unwrap_or("none".into())),
+            format!("(size {})", self.final_size.map(|i| i.to_string()).unwrap_or("none".into())),
+            tagged("pcount", self.pcount.iter().map(|c| c.to_string())),
+            tagged("evals", self.evals_before.iter().map(|c| c.to_string())),
+            format!("(evals-final {})", self.evals_final),
+            format!("(nlruns {})", self.n_lruns),
+            tagged("lruns", std::mem::take(&mut self.lruns)),
+        ];
+        self.iters = None;
+        self.final_height = None;
+        self.final_size = None;
+        self.pcount.clear();
+        self.evals_before.clear();
+        self.evals_final = -1;
+        self.n_lruns = 0;
+        self.loop_open.clear();
+        self.pass_open.clear();
+        self.open.clear();
+        v
     }
 }
 
@@ -352,7 +398,8 @@ fn run_case(input: &Sx) -> String {
 // from it what the template should look like (its size-relevant components with their arguments),
 // the prescribed population-size bound and the expected pass counts, instead of trusting a table in
 // the harness:
-//   `(prun NAME (ps p…) INSTANCE SEED (term KIND K N) TREE)`   KIND ∈ iters | evals | both | either
+//   `(prun NAME (ps p…) INSTANCE SEED (term KIND K N) [(inner KIND K N)] [(runs R)])`   KIND ∈ iters | evals | both | either
+//        inner: condition of the scoped local search of the ILS templates; runs: `Configuration::run` R times on one state
 //   `(ctor NAME (ps p…))`                                       constructor outcome only
 // Natural parameters travel as decimals, floats as `x` + 16 hex digits, in the order of `param_spec`.
 // ---------------------------------------------------------------------------------------------
@@ -403,17 +450,19 @@ impl Term {
             Term::Either(k, n) => LessThanN::iterations(k) | LessThanN::evaluations(n),
         }
     }
-    fn render(self) -> String {
+    fn render(self) -> String { self.render_tagged("term") }
+    fn render_tagged(self, tag: &str) -> String {
         match self {
-            Term::Iters(k) => format!("(term iters {} 0)", k),
-            Term::Evals(n) => format!("(term evals 0 {})", n),
-            Term::Both(k, n) => format!("(term both {} {})", k, n),
-            Term::Either(k, n) => format!("(term either {} {})", k, n),
+            Term::Iters(k) => format!("({} iters {} 0)", tag, k),
+            Term::Evals(n) => format!("({} evals 0 {})", tag, n),
+            Term::Both(k, n) => format!("({} both {} {})", tag, k, n),
+            Term::Either(k, n) => format!("({} either {} {})", tag, k, n),
         }
     }
-    fn parse(x: &Sx) -> Option<Term> {
+    fn parse(x: &Sx) -> Option<Term> { Term::parse_tagged(x, "term") }
+    fn parse_tagged(x: &Sx, tag: &str) -> Option<Term> {
         let (h, a) = x.head()?;
-        if h != "term" { return None; }
+        if h != tag { return None; }
         let (k, n) = (a.get(1)?.nat()? as u32, a.get(2)?.nat()? as u32);
         Some(match a.first()?.atom()? { "iters" => Term::Iters(k), "evals" => Term::Evals(n), "both" => Term::Both(k, n), "either" => Term::Either(k, n), _ => return None })
     }
@@ -459,7 +508,7 @@ fn parse_ps(name: &str, x: &Sx) -> Option<Vec<Pv>> {
 }
 
 /// Builds template `name` from the real constructor at the explicit parameter point `ps`.
-fn pbuild<U: ConfigUser>(name: &str, ps: &[Pv], inst: u32, term: Term, user: U) -> Result<U::Out, String> {
+fn pbuild<U: ConfigUser>(name: &str, ps: &[Pv], inst: u32, term: Term, inner: Option<Term>, user: U) -> Result<U::Out, String> {
     let n = |i: usize| match ps[i] { Pv::N(v) => v as u32, Pv::F(v) => v as u32 };
     let f = |i: usize| match ps[i] { Pv::F(v) => v, Pv::N(v) => v as f64 };
     macro_rules! go {
@@ -491,12 +540,12 @@ fn pbuild<U: ConfigUser>(name: &str, ps: &[Pv], inst: u32, term: Term, user: U) 
         "real_ils" => go!(p_sphere(inst), ils::real_ils::<Sphere>(
             ils::RealProblemParameters {
                 ls_params: ls::RealProblemParameters { n_neighbors: n(0), deviation: f(1) },
-                ls_condition: LessThanN::iterations(n(2)),
+                ls_condition: inner.map(|t| t.cond()).unwrap_or_else(|| LessThanN::iterations(n(2))),
             }, term.cond())),
         "permutation_ils" => go!(p_tsp(inst), ils::permutation_ils::<Tsp>(
             ils::PermutationProblemParameters {
                 ls_params: ls::PermutationProblemParameters { num_neighbors: n(0), num_swap: n(1) },
-                ls_condition: LessThanN::iterations(n(2)),
+                ls_condition: inner.map(|t| t.cond()).unwrap_or_else(|| LessThanN::iterations(n(2))),
             }, term.cond())),
         "real_rs" => go!(p_sphere(inst), rs::real_rs::<Sphere>(term.cond())),
         "permutation_rs" => go!(p_tsp(inst), rs::permutation_rs::<Tsp>(term.cond())),
@@ -523,27 +572,30 @@ fn pbuild<U: ConfigUser>(name: &str, ps: &[Pv], inst: u32, term: Term, user: U) 
     }
 }
 
-struct PRunner { seed: u64 }
+struct PRunner { seed: u64, runs: u32 }
 impl ConfigUser for PRunner {
-    type Out = (Rec, Outcome, String);
-    fn use_config<P: HProblem>(self, config: &Configuration<P>, problem: &P) -> (Rec, Outcome, String) {
+    /// (record, outcome, tree, observations of the runs after the first)
+    type Out = (Rec, Outcome, String, Vec<String>, Vec<String>);
+    fn use_config<P: HProblem>(self, config: &Configuration<P>, problem: &P) -> Self::Out {
         let tree = sertree::to_sexp(config.heuristic()).unwrap_or_else(|e| format!("(ser-error {})", e.to_string().replace(' ', "_")));
         let shared = Arc::new(Mutex::new(Rec::default()));
         let seed = self.seed;
-        let outcome;
-        {
-            let obs_v = shared.clone();
-            let obs_p = problem.clone();
-            let r = catch(|| {
-                config.optimize_with(problem, |state: &mut State<P>| {
-                    state.insert(Random::new(seed));
-                    state.insert_evaluator(Sequential::<P>::new());
-                    state.insert(StepObserver::<P>(Box::new(move |ph, name, idx, st| {
-                        obs_v.lock().unwrap().step(ph, name, idx, st, &obs_p);
-                    })));
-                    Ok(())
-                })
-            });
+        let mut outcome = Outcome::Ok;
+        let mut first: Vec<String> = vec![];
+        let mut again: Vec<String> = vec![];
+        let obs_v = shared.clone();
+        let obs_p = problem.clone();
+        let init = move |state: &mut State<P>| {
+            state.insert(Random::new(seed));
+            state.insert_evaluator(Sequential::<P>::new());
+            state.insert(StepObserver::<P>(Box::new(move |ph, name, idx, st| {
+                obs_v.lock().unwrap().step(ph, name, idx, st, &obs_p);
+            })));
+            Ok(())
+        };
+        if self.runs <= 1 {
+            // the usual entry point
+            let r = catch(|| config.optimize_with(problem, init));
             match r {
                 None => {
                     outcome = Outcome::Panic;
@@ -554,25 +606,56 @@ impl ConfigUser for PRunner {
                     shared.lock().unwrap_or_else(|e| e.into_inner()).done::<P>(&outcome, None, problem);
                 }
                 Some(Ok(state)) => {
-                    outcome = Outcome::Ok;
                     shared.lock().unwrap_or_else(|e| e.into_inner()).done(&outcome, Some(&state), problem);
                     drop(state);
                 }
             }
+            first = shared.lock().unwrap_or_else(|e| e.into_inner()).take_run();
+        } else {
+            // `Configuration::run` called `runs` times on ONE state prepared the way `optimize_with` prepares it; before
+            // every later run the caller puts an empty population stack in place (everything else stays)
+            let mut state: State<P> = State::new();
+            state.insert(mahf::logging::Log::new());
+            state.insert(Populations::<P>::new());
+            let _ = init(&mut state);
+            for r in 0..self.runs {
+                if r > 0 {
+                    state.insert(Populations::<P>::new());
+                }
+                let res = catch(std::panic::AssertUnwindSafe(|| config.run(problem, &mut state)));
+                let this = match res {
+                    None => Outcome::Panic,
+                    Some(Err(e)) => Outcome::Err(format!("{e}")),
+                    Some(Ok(())) => Outcome::Ok,
+                };
+                let failed = !matches!(this, Outcome::Ok);
+                {
+                    let mut rec = shared.lock().unwrap_or_else(|e| e.into_inner());
+                    if failed { rec.done::<P>(&this, None, problem); } else { rec.done(&this, Some(&state), problem); }
+                    let obs = rec.take_run();
+                    if r == 0 { first = obs; } else { again.push(list(obs)); }
+                }
+                if failed { outcome = this; break; }
+            }
+            drop(state);
         }
         let rec = std::mem::take(&mut *shared.lock().unwrap_or_else(|e| e.into_inner()));
-        (rec, outcome, tree)
+        (rec, outcome, tree, first, again)
     }
 }
 
 fn clean(e: &str) -> String { e.replace(|c: char| c.is_whitespace() || c == '(' || c == ')', "_") }
 
-/// `(prun NAME (ps …) INSTANCE SEED (term …) [TREE])` — the run happens in a worker thread under a watchdog.
+/// `(prun NAME (ps …) INSTANCE SEED (term …) [(inner KIND K N)] [(runs R)])` — the run happens in a worker thread under a
+/// watchdog.  `inner`: the termination condition of the scoped local search of the ILS templates (default:
+/// `LessThanN::iterations(last parameter)`); `runs`: `Configuration::run` that many times on the same state.
 fn prun_case(a: &[Sx]) -> String {
     let name = a[0].atom().unwrap().to_string();
     let ps = match parse_ps(&name, &a[1]) { Some(p) => p, None => return "((res bad-input))".into() };
     let (inst, seed) = (a[2].nat().unwrap() as u32, a[3].nat().unwrap());
     let term = match Term::parse(&a[4]) { Some(t) => t, None => return "((res bad-input))".into() };
+    let inner = a[5..].iter().find_map(|x| Term::parse_tagged(x, "inner"));
+    let runs = a[5..].iter().find_map(|x| x.head().filter(|(h, _)| *h == "runs").and_then(|(_, v)| v.first().and_then(|n| n.nat()))).unwrap_or(1).clamp(1, 4) as u32;
     // features of the instance the run really used (the Lean side's predictions depend on them)
     let zero_dist = kind_of(&name) == "perm" && {
         let t = p_tsp(inst);
@@ -581,31 +664,32 @@ fn prun_case(a: &[Sx]) -> String {
     let dim = p_dim(kind_of(&name), inst);
     let (tx, rx) = std::sync::mpsc::channel();
     std::thread::spawn(move || {
-        let r = catch(|| pbuild(&name, &ps, inst, term, PRunner { seed }));
+        let r = catch(|| pbuild(&name, &ps, inst, term, inner, PRunner { seed, runs }));
         let _ = tx.send(r);
     });
     match rx.recv_timeout(std::time::Duration::from_secs(60)) {
         Err(_) => "((res timeout) (msg -) (failed-in -))".into(),
         Ok(None) => "((res ctor-panic) (msg -) (failed-in -))".into(),
         Ok(Some(Err(e))) => format!("((res ctor-err) (msg {}))", clean(&e)),
-        Ok(Some(Ok((rec, outcome, tree)))) => list([
-            format!("(res {})", outcome.tag()),
-            format!("(msg {})", match &outcome { Outcome::Err(e) => clean(e), _ => "-".into() }),
-            format!("(failed-in {})", rec.failed_in.clone().unwrap_or("-".into())),
-            format!("(iters {})", rec.iters.map(|i| i.to_string()).unwrap_or("none".into())),
-            format!("(height {})", rec.final_height.map(|i| i.to_string()).unwrap_or("none".into())),
-            format!("(size {})", rec.final_size.map(|i| i.to_string()).unwrap_or("none".into())),
-            format!("(nsteps {})", rec.n_steps),
-            tagged("pcount", rec.pcount.iter().map(|c| c.to_string())),
-            format!("(itouch {})", rec.itouch),
-            tagged("evals", rec.evals_before.iter().map(|c| c.to_string())),
-            format!("(evals-final {})", rec.evals_final),
-            format!("(inst-dim {})", dim),
-            format!("(inst-zero-dist {})", b(zero_dist)),
-            tagged("passes", rec.passes),
-            tagged("steps", rec.steps),
-            format!("(tree {})", tree),
-        ]),
+        Ok(Some(Ok((rec, outcome, tree, first, again)))) => {
+            let mut v = vec![
+                format!("(res {})", outcome.tag()),
+                format!("(msg {})", match &outcome { Outcome::Err(e) => clean(e), _ => "-".into() }),
+                format!("(failed-in {})", rec.failed_in.clone().unwrap_or("-".into())),
+            ];
+            v.extend(first);
+            v.extend([
+                format!("(nsteps {})", rec.n_steps),
+                format!("(itouch {})", rec.itouch),
+                format!("(inst-dim {})", dim),
+                format!("(inst-zero-dist {})", b(zero_dist)),
+                tagged("again", again),
+                tagged("passes", rec.passes),
+                tagged("steps", rec.steps),
+                format!("(tree {})", tree),
+            ]);
+            list(v)
+        }
     }
 }
 
@@ -613,7 +697,7 @@ fn prun_case(a: &[Sx]) -> String {
 fn ctor_case(a: &[Sx]) -> String {
     let name = a[0].atom().unwrap();
     let ps = match parse_ps(name, &a[1]) { Some(p) => p, None => return "((res bad-input))".into() };
-    match catch(|| pbuild(name, &ps, 0, Term::Iters(1), Tree)) {
+    match catch(|| pbuild(name, &ps, 0, Term::Iters(1), None, Tree)) {
         None => "((res ctor-panic))".into(),
         Some(Err(_)) => "((res ctor-err))".into(),
         Some(Ok(_)) => "((res ok))".into(),
@@ -712,7 +796,7 @@ fn gen_any(name: &str, r: &mut Sm) -> Vec<String> {
 
 /// Fixed explicit-parameter cases, run on every check: the recorded findings' witnesses and the corners of the
 /// documented parameter domains.
-const FIXED_PRUNS: [&str; 22] = [
+const FIXED_PRUNS: [&str; 34] = [
     "(prun real_pso (ps 2 x3fe0000000000000 x0000000000000000 x4024000000000000 x3fe0000000000000 x3eb0c6f7a0b5ed8d) 0 800767 (term evals 0 5))",
     "(prun real_iwo (ps 2 7 5 5 x3ff0000000000000 x0000000000000000 2) 3 142452 (term evals 0 40))",
     "(prun ant_system (ps 2 x3fe0000000000000 x3ff0000000000000 x3f50624dd2f1a9fc x3ff0000000000000 x3fe0000000000000) 5 144435 (term evals 0 5))",
@@ -742,6 +826,21 @@ const FIXED_PRUNS: [&str; 22] = [
     "(prun ant_system (ps 0 x3ff0000000000000 x3ff0000000000000 x3ff0000000000000 x3fe0000000000000 x3ff0000000000000) 5 26 (term iters 3 0))",
     "(prun max_min_ant_system (ps 3 x3ff0000000000000 x3ff0000000000000 x3ff0000000000000 x3fe0000000000000 x4000000000000000 x3fe0000000000000) 4 27 (term iters 3 0))",
     "(prun real_cro (ps 1 x3fe0000000000000 x3fc999999999999a 3 x3fe0000000000000 x4024000000000000 x0000000000000000 x3fb999999999999a x3fb999999999999a) 4 28 (term either 6 20))",
+    // the scoped local search under an evaluation budget of its own (3 passes of 2 / 3 passes of 4 in EVERY outer pass),
+    // under composite conditions, together with an evaluation budget on the outer loop
+    "(prun real_ils (ps 2 x3fc999999999999a 0) 1 31 (term iters 5 0) (inner evals 0 6))",
+    "(prun permutation_ils (ps 4 2 0) 1 32 (term iters 7 0) (inner evals 0 10))",
+    "(prun real_ils (ps 3 x3fb999999999999a 4) 2 33 (term iters 3 0) (inner both 4 7))",
+    "(prun permutation_ils (ps 1 2 2) 0 34 (term both 6 5) (inner either 2 5))",
+    "(prun real_ils (ps 5 x3fe0000000000000 0) 3 35 (term evals 0 4) (inner evals 0 11))",
+    "(prun real_ils (ps 0 x3fe0000000000000 3) 0 36 (term either 2 4) (inner both 3 5))",
+    // `Configuration::run` again on the state of the previous run: every run starts its counters from zero
+    "(prun real_ga (ps 6 2 x3fe0000000000000 x3fb999999999999a x3fe0000000000000) 1 37 (term evals 0 40) (runs 2))",
+    "(prun real_sa (ps x3ff0000000000000 x3fe0000000000000 x3fb999999999999a) 0 38 (term either 3 9) (runs 3))",
+    "(prun permutation_ils (ps 2 2 0) 2 39 (term evals 0 5) (inner evals 0 5) (runs 2))",
+    "(prun real_de (ps 4 2 x3fe0000000000000 x3fe0000000000000) 2 40 (term both 5 17) (runs 2))",
+    "(prun ant_system (ps 2 x3ff0000000000000 x3ff0000000000000 x3ff0000000000000 x3fe0000000000000 x3ff0000000000000) 1 41 (term evals 0 7) (runs 2))",
+    "(prun real_bh (ps 3) 1 42 (term iters 4 0) (runs 3))",
 ];
 
 fn emit_pruns(out: &mut Out, seed: u64, thorough: bool) {
@@ -769,7 +868,27 @@ fn emit_pruns(out: &mut Out, seed: u64, thorough: bool) {
                 _ => Term::Iters(it),
             };
             let s = r.next() % 1_000_000;
-            let input = format!("(prun {} (ps {}) {} {} {})", name, ps.join(" "), inst, s, term.render());
+            // the scoped local search of the ILS templates: every kind of condition the outer loop gets (an evaluation
+            // budget alone or in an OR needs at least one neighbour per pass to be reachable)
+            let mut extra = String::new();
+            if name.ends_with("_ils") && r.chance(3, 5) {
+                let nb = ps[0].parse::<u64>().unwrap_or(0);
+                let m = *r.pick(&[0u32, 1, 2, 3, 5]);
+                let bud = *r.pick(&[1u32, 2, 5, 6, 10, 17, 31]);
+                let inner = match r.below(6) {
+                    0 => Term::Iters(m),
+                    1 | 2 if nb >= 1 => Term::Evals(bud),
+                    3 => Term::Both(m, bud),
+                    4 if nb >= 1 && m >= 1 => Term::Either(m, bud),
+                    _ => if nb >= 1 { Term::Evals(bud) } else { Term::Both(m, bud) },
+                };
+                extra.push_str(&format!(" {}", inner.render_tagged("inner")));
+            }
+            // a quarter of the points: the configuration is run again on the state of its first run
+            if r.chance(1, 4) {
+                extra.push_str(&format!(" (runs {})", r.pick(&[2u32, 2, 2, 3])));
+            }
+            let input = format!("(prun {} (ps {}) {} {} {}{})", name, ps.join(" "), inst, s, term.render(), extra);
             let sx = Sx::parse(&input).unwrap();
             out.case(&format!("p:{}", name), &input, &run_case(&sx));
         }
